@@ -1,6 +1,11 @@
 """C06 — see DESIGN.md section 7."""
 from tools.harness.core import Property
+from tools.props.weaver_units import WeaverUnit
 from tools.props.rfa_units import RfaUnit, FunfitUnit, AdaptiveWindowsUnit, RfaMetaUnit
+
+
+class WC06(WeaverUnit):
+    name = "weaver_c06"
 
 
 class P(Property):
@@ -8,7 +13,8 @@ class P(Property):
     gen_targets = ["Funfit", "Kernels", "RfaGlue"]
 
     def units(self, tier):
-        return [RfaUnit(("C06",)), FunfitUnit(), AdaptiveWindowsUnit()]
+        return [RfaUnit(("C06",)), FunfitUnit(), AdaptiveWindowsUnit(),
+                WC06(("C06",), ops=['recreate', 'recreate', 'shift_y', 'scale_y', 'append'], max_len=3, queries=False)]
 
 
 PROPERTY = P()
